@@ -280,8 +280,8 @@ H("C19", "mapping", "c19_is_valid_window", timeout=2400, what="is_valid == 50-it
 # --------------------------------------------------------------------------- C05
 PROPS["C05"] = dict(
     claim=("grammar templates with symbolic holes (identifier characters from the property's alphabet, digits) through the real record parser and through try_parse: the record's components are exactly the hole "
-           "slices (pointer and length). Quick: header `#key` and `# key: value`+LF. Thorough adds: field line + LF, and the malformed lines `missing return type` and `missing arrow` (reported as errors carrying "
-           "exactly the offending line, parsing resumes after it). The remaining templates (class, method x {range} x {class} x {:os,:os:oe}, sourceFile JSON, other malformed lines, parse_usize on 20 digits) are "
+           "slices (pointer and length). Quick: header `#key` and `# key: value`+LF. Thorough adds: parse_usize alone on 1..20 symbolic digits (exact value, or an error when it does not fit 64 bits), field line + LF, and the malformed lines `missing return type` and `missing arrow` (reported as errors carrying "
+           "exactly the offending line, parsing resumes after it). The remaining templates (class, method x {range} x {class} x {:os,:os:oe}, sourceFile JSON, other malformed lines) are "
            "written and runnable with `./check C05 --tier extra`, but ran out of memory / time (24 GB, 50 min) or ended undetermined, and are in neither registered tier"),
     outside=("class and method templates (extra tier only, DESIGN.md section 2b); identifiers longer than 3 symbolic characters, numbers longer than 3 digits inside a full line, non-ASCII identifier characters; "
              "the usable-range rule itself is assumed (not decided) by the C01 kernels"),
@@ -293,7 +293,7 @@ for _n, _t in [("class", "extra"), ("header_k", "quick"), ("class_crlf", "extra"
                ("method_plain", "extra"), ("method_noargs_class", "extra"), ("method_range", "extra"), ("method_range_os", "extra"), ("method_range_os_oe", "extra"), ("method_norange_os", "extra"),
                ("bad_unspaced_arrow", "extra"), ("bad_class_no_colon", "extra"), ("bad_indent2", "extra"), ("bad_start_without_end", "extra"), ("bad_no_type", "thorough"), ("bad_no_arrow", "thorough")]:
     H("C05", "mapping", "c05_" + _n, tier=_t, timeout=3000, what="template " + _n, **_c05)
-H("C05", "mapping", "c05_parse_usize_20", tier="extra", timeout=3000, what="parse_usize on 1..20 symbolic digits: exact value or error on overflow", vars="20 digits, count", bound="<=20 digits",
+H("C05", "mapping", "c05_parse_usize_20", tier="thorough", timeout=3000, what="parse_usize on 1..20 symbolic digits: exact value or error on overflow", vars="20 digits, count", bound="<=20 digits",
   functions=["mapping::parse_usize"], stubs=["core::str::from_utf8 -> from_utf8_model", "char::is_numeric -> is_numeric_model"])
 
 # --------------------------------------------------------------------------- C10
